@@ -42,7 +42,7 @@ pub fn case_real(rd: &mut Rd) -> R<String> {
     let ip: IpAddr = if v6 { IpAddr::V6(Ipv6Addr::LOCALHOST) } else { IpAddr::V4(Ipv4Addr::LOCALHOST) };
     let stop = Arc::new(AtomicBool::new(false));
     let seen: Arc<Mutex<Vec<Vec<u8>>>> = Arc::new(Mutex::new(Vec::new()));
-    let tcp = kind == 2 || kind == 4 || kind == 5;
+    let tcp = kind == 2 || kind == 4 || kind == 5 || kind == 6 || kind == 7;
     // after == 4: a listener that never accepts and whose accept queue is full, so that further SYNs are dropped
     let mut parked: Vec<std::net::TcpStream> = Vec::new();
     let mut blackhole: Option<TcpListener> = None;
@@ -139,6 +139,8 @@ pub fn case_real(rd: &mut Rd) -> R<String> {
         (p, Some(h))
     };
     let addr = SocketAddr::new(ip, port);
+    // the auto query also asks over UDP on the same port number: a bound, silent socket (otherwise the kernel answers "refused")
+    let _udp_silent = if kind == 6 { UdpSocket::bind(addr).ok() } else { None };
     let start = Instant::now();
     let res: Result<String, ()> = catch_unwind(AssertUnwindSafe(|| {
         fn show<T>(r: GDResult<T>, f: impl Fn(&T) -> String) -> String { show_res(&r, f) }
@@ -155,6 +157,8 @@ pub fn case_real(rd: &mut Rd) -> R<String> {
             2 => show(gamedig::games::minecraft::protocol::query_java(&addr, ts, None), |r| canon(r)),
             3 => show(raw::udp_exchange(&addr, &ts, &payload, size), |r| digest(r)),
             5 => show(gamedig::games::eco::query_with_timeout(&ip, Some(port), &ts), |_| "response".to_string()),
+            6 => show(gamedig::games::minecraft::protocol::query(&addr, ts, None), |r| canon(r)),
+            7 => show(gamedig::games::minecraft::protocol::query_legacy(&addr, ts), |r| canon(r)),
             _ => show(raw::tcp_exchange(&addr, &ts, &payload), |r| digest(r)),
         }
     }))
@@ -169,7 +173,7 @@ pub fn case_real(rd: &mut Rd) -> R<String> {
     drop(parked);
     drop(blackhole);
     let seen = seen.lock().unwrap();
-    let saw = if kind == 5 {
+    let saw = if kind == 5 || kind == 6 || kind == 7 {
         // the HTTP request text carries the port and the client's version: not compared
         String::new()
     } else if kind == 2 {
